@@ -190,11 +190,11 @@ func cp(ls []Label) []Label {
 
 // Build synthesises function number idx from its description.
 func (env *Env) Build(idx int, fs FuncSpec, extra ...am.Arg) (*am.Func, error) {
-	var opts []am.Arg
+	// the caller's option slice is handed to NewFunc as it is (spare capacity included)
+	opts := extra
 	if fs.Once {
 		opts = append(opts, am.FuncOnce())
 	}
-	opts = append(opts, extra...)
 	var f *am.Func
 	var err error
 	if fs.Form == "built" {
